@@ -90,6 +90,11 @@ func (w *structWriter) decode_method(def *model.Definition) error {
 	w.line()
 
 	fields := def.Struct.Fields.Values()
+	if len(fields) == 0 {
+		// A struct without fields, keep the Go compiler happy
+		w.line(`_ = off`)
+		w.line()
+	}
 	for i := len(fields) - 1; i >= 0; i-- {
 		field := fields[i]
 		fieldName := structFieldName(field)
